@@ -20,7 +20,7 @@
      - at the end, ordered: the slots 1..max must all be filled, otherwise
        "Ordered argument missing" at offset 0.                                *)
 From Coq Require Import NArith List Bool Arith.
-From CL Require Import Base.Str Generated.C06Facts Model.CheckProps.
+From CL Require Import Base.Str Regex.Rx Generated.RxC06 Generated.C06Facts Model.CheckProps.
 Import ListNotations.
 
 Inductive width := WNone | WStar | WNum (ds : str).
@@ -174,3 +174,35 @@ Definition plural_forms (locale : option str) : option nat :=
 
 Definition semicolon : N := 59%N.
 Definition found_forms (l10nValue : str) : nat := count_char semicolon l10nValue + 1.
+
+(* ---- the regex layer, as a contract -----------------------------------------------
+   [pct_toks toks off]: the tokens that begin with a per cent sign, with their
+   offsets in the rendering.  [tok_match s off t x]: the match object x
+   describes the token t at offset off of s: it starts there; "good" is the
+   escaped per cent sign / did not take part / is the conversion; "number" and
+   "spec" are the token's. *)
+Fixpoint pct_toks (toks : list tok) (off : nat) : list (nat * tok) :=
+  match toks with
+  | [] => []
+  | t :: r =>
+      let off' := off + length (render_tok t) in
+      match t with
+      | TText _ => pct_toks r off'
+      | _ => (off, t) :: pct_toks r off'
+      end
+  end.
+
+Definition tok_match (s : str) (off : nat) (t : tok) (x : Rx.mres) : Prop :=
+  Rx.m_start x = off /\
+  match t with
+  | TText _ => False
+  | TPct => gtext s RxC06.g_printf_good x = Some [pct]
+  | TLone => gtext s RxC06.g_printf_good x = None
+  | TSpec num w p c =>
+      (exists g, gtext s RxC06.g_printf_good x = Some g /\ g <> [pct]) /\
+      gtext s RxC06.g_printf_number x = num /\
+      gtext s RxC06.g_printf_spec x = Some [c]
+  end.
+
+Definition matches_describe (toks : list tok) (ms : list Rx.mres) : Prop :=
+  Forall2 (fun ot x => tok_match (render toks) (fst ot) (snd ot) x) (pct_toks toks 0) ms.
